@@ -10,7 +10,7 @@ from constantdict import constantdict
 import pymbolic.primitives as p
 
 from pytato.array import Array, ArrayOrScalar, IndexLambda, ShapeType
-from pytato.diagnostic import UnknownIndexLambdaExpr
+from pytato.diagnostic import CannotBroadcastError, UnknownIndexLambdaExpr
 from pytato.scalar_expr import (
     SCALAR_CLASSES,
     IdentityMapper,
@@ -150,7 +150,12 @@ def _as_array_or_scalar(exprs: Sequence[ScalarExpression],
     """
 
     result: list[ArrayOrScalar] = []
-    if out_shape != get_shape_after_broadcasting(bindings.values()):
+    try:
+        broadcast_shape = get_shape_after_broadcasting(bindings.values())
+    except CannotBroadcastError:
+        # e.g. the operands of a lowered concatenate
+        raise UnknownIndexLambdaExpr() from None
+    if out_shape != broadcast_shape:
         raise UnknownIndexLambdaExpr()
 
     binding_to_subscript = {bnd_name: p.Subscript(
